@@ -9,6 +9,10 @@
   `absoluteAlarms`, a relative one in the others); `sorted_ofComponent` shows it of every state built by
   `Alarms(component)`.  `self._add(self._start, ..)` with `_start` None (TypeError in Python) is inside a
   comprehension over an empty list there: the proof shows it is never reached.
+  `Alarms.add_component` with `set_parent`, `set_start`, `set_end`, `acknowledge_until`, `snooze_until`, `add_alarm`
+  (methods that write attributes of self: translated as functions from the attributes before to the attributes
+  after) is the model's `addComponent` (`add_component_eq`), `add_alarm` is `addAlarm`, and the chain
+  add_component then times is the model's (`add_component_times`).
 -/
 import ICal.Model.AlarmPieces
 import ICal.Lemmas.BodiesAlarm
@@ -168,5 +172,108 @@ theorem sorted_ofComponent (p : Parent) (start end_ : Option Trig) (alarms : Lis
   unfold ofComponent addComponent
   apply sorted_foldl
   cases p.isThunderbird <;> exact ⟨by simp [setStart, setEnd, acknowledgeUntil, snoozeUntil], by simp [setStart, setEnd, acknowledgeUntil, snoozeUntil], by simp [setStart, setEnd, acknowledgeUntil, snoozeUntil]⟩
+
+/-! ### `add_component`, `add_alarm` and the setters -/
+
+/-- the translated `add_alarm` is the model's `addAlarm` on the three lists -/
+theorem add_alarm_eq (s : State) (a : VAlarm) :
+    addAlarmP a s.absoluteAlarms s.startAlarms s.endAlarms =
+      ((addAlarm s a).absoluteAlarms, (addAlarm s a).startAlarms, (addAlarm s a).endAlarms) := by
+  unfold addAlarmP Alarms_add_alarm addAlarm
+  cases ht : a.trigger with
+  | none => simp [ht]
+  | some t =>
+    simp only [relatedIsStartP, ht]
+    by_cases hab : t.isAbs = true
+    · simp [hab]
+    · by_cases hst : a.triggerRelated = START <;> simp [hab, hst]
+
+/-- `add_alarm` does not touch the other attributes -/
+theorem addAlarm_other (s : State) (a : VAlarm) :
+    (addAlarm s a).start = s.start ∧ (addAlarm s a).end_ = s.end_ ∧ (addAlarm s a).lastAck = s.lastAck ∧
+      (addAlarm s a).snooze = s.snooze ∧ (addAlarm s a).localTz = s.localTz := by
+  unfold addAlarm
+  cases a.trigger with
+  | none => simp
+  | some t => by_cases h1 : t.isAbs = true <;> by_cases h2 : a.triggerRelated = START <;> simp [h1, h2]
+
+theorem add_component_loop (as : List VAlarm) : ∀ (s : State),
+    Alarms_add_component_loop1 (alarm_trigger := fun a => a.trigger) (trigger_is_date := TriggerV.isAbs)
+        (related_is_start := relatedIsStartP) s.absoluteAlarms s.startAlarms s.endAlarms as =
+      .ok ((as.foldl addAlarm s).absoluteAlarms, (as.foldl addAlarm s).startAlarms, (as.foldl addAlarm s).endAlarms) := by
+  induction as with
+  | nil => intro s; rfl
+  | cons a as ih =>
+    intro s
+    rw [Alarms_add_component_loop1]
+    have h := add_alarm_eq s a
+    unfold addAlarmP at h
+    simp only [h, List.foldl_cons]
+    exact ih (addAlarm s a)
+
+theorem foldl_other (as : List VAlarm) : ∀ (s : State),
+    (as.foldl addAlarm s).start = s.start ∧ (as.foldl addAlarm s).end_ = s.end_ ∧ (as.foldl addAlarm s).lastAck = s.lastAck ∧
+      (as.foldl addAlarm s).snooze = s.snooze := by
+  induction as with
+  | nil => intro s; simp
+  | cons a as ih =>
+    intro s
+    obtain ⟨h1, h2, h3, h4, _⟩ := addAlarm_other s a
+    obtain ⟨i1, i2, i3, i4⟩ := ih (addAlarm s a)
+    simp only [List.foldl_cons]
+    exact ⟨i1.trans h1, i2.trans h2, i3.trans h3, i4.trans h4⟩
+
+/-- the translated `Alarms.add_component` (with `set_parent`, `set_start`, `set_end`, `acknowledge_until`, `snooze_until`,
+    `add_alarm`) is the model's `addComponent` -/
+theorem add_component_eq (s : State) (par : Option CompView) (c : CompView) :
+    alarmsAddComponentP c (fieldsOf s par) = .ok (fieldsOf (addComponent s c.parent c.start c.end_ c.alarms) (some c)) := by
+  obtain ⟨p, st, en, as⟩ := c
+  have hack : ∀ (o : Option Int) (la : Option Trig), Alarms_acknowledge_until (awareOpt o) la id = awareOpt o := by
+    intro o la; cases o <;> rfl
+  have hsn : ∀ (o : Option Int) (la : Option Trig), Alarms_snooze_until (awareOpt o) la id = awareOpt o := by
+    intro o la; cases o <;> rfl
+  unfold alarmsAddComponentP Alarms_add_component fieldsOf addComponent
+  simp only [hack, hsn, Alarms_set_parent, Alarms_set_start, Alarms_set_end, startP, endP]
+  by_cases ht : p.isThunderbird = true
+  · have hl := add_component_loop as (snoozeUntil (acknowledgeUntil (setEnd (setStart s st) en) p.lastack) p.snoozeTime)
+    have ho := foldl_other as (snoozeUntil (acknowledgeUntil (setEnd (setStart s st) en) p.lastack) p.snoozeTime)
+    simp only [setStart, setEnd, acknowledgeUntil, snoozeUntil] at hl ho
+    cases par <;> cases st <;> cases en <;>
+      simp [ht, caught, bind, Except.bind, pure, Except.pure, setStart, setEnd, acknowledgeUntil, snoozeUntil, hl, ho]
+  · have hl := add_component_loop as (acknowledgeUntil (setEnd (setStart s st) en) p.dtstamp)
+    have ho := foldl_other as (acknowledgeUntil (setEnd (setStart s st) en) p.dtstamp)
+    simp only [setStart, setEnd, acknowledgeUntil, snoozeUntil] at hl ho
+    cases par <;> cases st <;> cases en <;>
+      simp [ht, caught, bind, Except.bind, pure, Except.pure, setStart, setEnd, acknowledgeUntil, snoozeUntil, hl, ho]
+
+/-- `add_component` keeps the lists sorted -/
+theorem sorted_addComponent (s : State) (h : Sorted s) (p : Parent) (start end_ : Option Trig) (alarms : List VAlarm) :
+    Sorted (addComponent s p start end_ alarms) := by
+  unfold addComponent
+  apply sorted_foldl
+  cases p.isThunderbird <;> exact ⟨h.abs, h.start, h.end_⟩
+
+/-- the translated `times` on the attributes is the model's `times` -/
+theorem timesF_eq (loc : Int → Int) (s : State) (par : Option CompView) (h : Sorted s) :
+    timesF loc s.localTz (fieldsOf s par) = liftA ((times loc s).map (List.map toATup)) :=
+  times_eq loc s h
+
+/-- the whole chain as translated - `add_component(c)` on a sorted state, then `times` - is the model's -/
+theorem add_component_times (loc : Int → Int) (s : State) (par : Option CompView) (c : CompView) (h : Sorted s) :
+    (alarmsAddComponentP c (fieldsOf s par) >>= timesF loc s.localTz) =
+      liftA ((times loc (addComponent s c.parent c.start c.end_ c.alarms)).map (List.map toATup)) := by
+  rw [add_component_eq]
+  have hl : (addComponent s c.parent c.start c.end_ c.alarms).localTz = s.localTz := by
+    unfold addComponent
+    have : ∀ (as : List VAlarm) (s1 : State), (as.foldl addAlarm s1).localTz = s1.localTz := by
+      intro as
+      induction as with
+      | nil => intro s1; rfl
+      | cons a as ih => intro s1; simp only [List.foldl_cons]; rw [ih]; exact (addAlarm_other s1 a).2.2.2.2
+    rw [this]
+    cases c.parent.isThunderbird <;> rfl
+  show timesF loc s.localTz (fieldsOf _ (some c)) = _
+  rw [← hl]
+  exact timesF_eq loc _ (some c) (sorted_addComponent s h _ _ _ _)
 
 end ICal.Bodies
